@@ -1100,7 +1100,7 @@ CHECK = Check(
         "known finding F03b: the slash-less admission of a non-strict branch rule is not counted for MethodNotAllowed (negation witnesses match_notfound_any_method_full_false, match_405_full_false)",
         "known finding F03d: literal text after a path converter is part of the same slash-consuming RulePart and counts in its Weighting (number of static weights first), so Rule('/<path:p>/edit') outranks Rule('/<string:s>/edit') and Rule('/<int:i>/edit') - against the documented 'int/float before string before path'; match_priority proves the Weighting order the code implements, witness path_with_literal_tail_beats_narrower",
         "known finding F03c: SlashRequired / merged-slashes redirect is raised before to_python validation, so the redirect target can be NotFound",
-        "match_405_iff_partial additionally assumes the path is not subject to slash merging (the second pass adds the methods of rules that admit the merged path)",
+        "match_405_iff_partial additionally assumes the path is not subject to slash merging: the second pass adds the methods of rules that admit the merged path, so GET /a//b is 405 although no rule admits /a//b (necessity witness match_405_iff_nomerge_needed)",
         "insertion order: proved for arbitrary permutations that the search is None for one order iff for the other, and that the found rule and groups coincide when the specificity order decides between the directly admitting (strict) rules (insertion_order_irrelevant_partial); rules of equal specificity (e.g. <int:x> vs <float:y> at the same place, or two rules with the same pattern) are a genuine tie broken by insertion order: the hypothesis is shown necessary by insertion_order_irrelevant_full_false (<string> vs <uuid>); deriving decisiveness from a syntactic condition and the non-strict forms stay OPEN (see Props/C03.lean)",
     ],
     trusted_extra=["CPython re / int / float / uuid semantics for the modelled primitives (validated by the streams, not verified)"],
